@@ -151,6 +151,19 @@ def marker_universe(chk):
             objs.append(mx.rebuild(dom, k))
         except PyRaise:
             continue
+    # the same members in a different order, flat and nested (equality of compounds is order-sensitive by construction; whatever
+    # __eq__ says, equal objects must hash equal)
+    X = ("ME", "os_name", "==", "a", False)
+    Y = ("ME", "sys_platform", "!=", "b", False)
+    Z = ("ME", "python_version", ">=", "3.8", False)
+    for kind in ("MarkerUnion", "MultiMarker"):
+        other = "MultiMarker" if kind == "MarkerUnion" else "MarkerUnion"
+        for k in ((kind, X, Y), (kind, Y, X), (kind, X, Y, Z), (kind, Z, Y, X), (kind, Y, Z, X), (other, (kind, X, Y), Z), (other, (kind, Y, X), Z),
+                  (other, Z, (kind, X, Y))):
+            try:
+                objs.append(mx.rebuild(dom, k))
+            except PyRaise:
+                pass
     # equal-but-differently-built twins: reversed spelling (operators with a converse), attached specifier cache
     twins = []
     for (name, op, value) in (("os_name", "==", "a"), ("os_name", "!=", "b"), ("python_version", ">", "3.8"), ("python_version", "<=", "3.7"),
